@@ -23,6 +23,7 @@ func init() {
 			{Prop: "C12", Rule: "R1", Keys: []string{"HandlerDef/"}, Floor: 2, Why: "ObserveOn/SubscribeOn run the effect and OnNext through a Handler: one consumer goroutine"},
 			{Prop: "C12", Rule: "R2", Keys: []string{"HandlerDef/"}, Floor: 1, Why: "ObserveOn/SubscribeOn run the effect and OnNext through a Handler: each posted function runs once, in order"},
 			{Prop: "C12", Rule: "R3", Keys: []string{"HandlerDef.Post"}, Floor: 1, Why: "ObserveOn/SubscribeOn run the effect and OnNext through a Handler: Post enqueues exactly once"},
+			{Prop: "C12", Rule: "R5", Keys: []string{"HandlerDef/own-channel"}, Floor: 1, Why: "'on h1's goroutine': a handler whose channel is shared with other handlers has its work run by whichever of their goroutines receives it"},
 		},
 	})
 }
